@@ -119,7 +119,24 @@ Definition lq_ok (m : mux) : Prop :=
 Definition conn_ok (cs : list (N * cstate)) (cq chq : list evt) (pt : list (N * pstate)) : Prop :=
   forall req, occ req (q_reqs cq) + occ req (q_reqs chq) + occ req (port_reqs pt) = b2n (is_waiting (lookup req cs)).
 
+(** which events travel in which queue *)
+Definition cq_ev (ev : evt) : bool := match ev with EConnectReq _ _ _ _ | EAllClientsDropped => true | _ => false end.
+Definition chq_ev (ev : evt) : bool :=
+  match ev with
+  | EAccepted _ _ | ERejected _ _ | ESendData _ _ _ _ | ESendPorts _ _ _ _ _ | EReturnCredits _ _
+  | ESenderDropped _ | EReceiverClosed _ | EReceiverDropped _ => true
+  | _ => false
+  end.
+Definition qs_ok (cq chq : list evt) : Prop := forallb cq_ev cq = true /\ forallb chq_ev chq = true.
+
+(** the same with explicit lists of pending numbers / request ids *)
+Definition num_ok' (al pend : list N) (pt : list (N * pstate)) : Prop :=
+  forall p, occ p pend + isK (lookup p pt) <= b2n (mem p al).
+Definition conn_ok' (cs : list (N * cstate)) (pend : list N) (pt : list (N * pstate)) : Prop :=
+  forall req, occ req pend + occ req (port_reqs pt) = b2n (is_waiting (lookup req cs)).
+
 Record Inv (e : ep) : Prop := mk_Inv {
+  inv_qs : qs_ok (cq e) (chq e);
   inv_num : num_ok (alloc e) (cq e) (chq e) (ports (mx e));
   inv_req : req_ok (outstanding (mx e)) (requests e) (chq e);
   inv_h : handle_ok (handles e) (chq e) (ports (mx e));
@@ -340,4 +357,292 @@ Lemma handle_ok_upd hs chq pt p c c' :
 Proof.
   intros Hl E1 E2 E3 H p0. specialize (H p0). rewrite lookup_insert. destruct (p0 =? p) eqn:E; [|exact H].
   apply N.eqb_eq in E. subst p0. rewrite Hl in H. eapply hok1_conn; eauto.
+Qed.
+
+(** * Pops *)
+Lemma num_ok_pop_chq al cq q pt ev : ev_nums ev = [] -> num_ok al cq (ev :: q) pt -> num_ok al cq q pt.
+Proof. intros Hev H p. specialize (H p). rewrite q_nums_cons, Hev in H. exact H. Qed.
+Lemma num_ok_pop_cq al q chq pt ev : ev_nums ev = [] -> num_ok al (ev :: q) chq pt -> num_ok al q chq pt.
+Proof. intros Hev H p. specialize (H p). rewrite q_nums_cons, Hev in H. exact H. Qed.
+Lemma conn_ok_pop_chq cs cq q pt ev : ev_reqs ev = [] -> conn_ok cs cq (ev :: q) pt -> conn_ok cs cq q pt.
+Proof. intros Hev H p. specialize (H p). rewrite q_reqs_cons, Hev in H. exact H. Qed.
+Lemma conn_ok_pop_cq cs q chq pt ev : ev_reqs ev = [] -> conn_ok cs (ev :: q) chq pt -> conn_ok cs q chq pt.
+Proof. intros Hev H p. specialize (H p). rewrite q_reqs_cons, Hev in H. exact H. Qed.
+Lemma req_ok_pop out reqs q ev : (forall r, is_reply r ev = false) -> req_ok out reqs (ev :: q) -> req_ok out reqs q.
+Proof. intros Hev H r. specialize (H r). rewrite count_cons, Hev in H. exact H. Qed.
+
+(** * Removing a table entry *)
+Lemma num_ok_remove al cq chq pt p :
+  lookup p pt <> None -> num_ok al cq chq pt -> num_ok (del p al) cq chq (remove p pt).
+Proof.
+  intros Hl H p0. pose proof (H p0) as H0. rewrite lookup_remove, mem_del. destruct (p0 =? p) eqn:E; [|exact H0].
+  apply N.eqb_eq in E. subst p0. destruct (lookup p pt); [|congruence]. cbn [isK b2n] in *.
+  pose proof (b2n_le1 (mem p al)). lia.
+Qed.
+Lemma buf_ok_remove buf pt p : buf_ok buf pt -> buf_ok buf (remove p pt).
+Proof. intros H p0 c. rewrite lookup_remove. destruct (p0 =? p); [discriminate|apply H]. Qed.
+Lemma portq_ok_remove hs pt reqs p :
+  NoDup (map fst pt) -> pq_ent hs p (lookup p pt) = [] -> portq_ok hs pt reqs -> portq_ok hs (remove p pt) reqs.
+Proof.
+  intros Hn He H r. specialize (H r). unfold portq_reqs in *.
+  pose proof (tab_remove (pq_ent hs) r p pt Hn (pq_ent_None hs)) as T. rewrite He, occ_nil in T. lia.
+Qed.
+Lemma portq_ok_insert hs pt reqs p s :
+  NoDup (map fst pt) -> pq_ent hs p (lookup p pt) = [] -> pq_ent hs p (Some s) = [] ->
+  portq_ok hs pt reqs -> portq_ok hs (insert p s pt) reqs.
+Proof.
+  intros Hn He Hs H r. specialize (H r). unfold portq_reqs in *.
+  pose proof (tab_insert (pq_ent hs) r p s pt Hn (pq_ent_None hs)) as T. rewrite He, Hs, occ_nil in T. lia.
+Qed.
+Lemma conn_ok_remove cs cq chq pt p :
+  NoDup (map fst pt) -> st_reqs (lookup p pt) = [] -> conn_ok cs cq chq pt -> conn_ok cs cq chq (remove p pt).
+Proof.
+  intros Hn Hl H r. specialize (H r). unfold port_reqs in *.
+  pose proof (tab_remove (fun _ s => st_reqs s) r p pt Hn st_reqs_None) as T. cbv beta in T.
+  rewrite Hl, occ_nil in T. lia.
+Qed.
+
+(** general shape of a change of [handle_ok] that is local to port [p] *)
+Lemma handle_ok_gen hs hs' chq chq' pt pt' p :
+  handle_ok hs chq pt ->
+  (forall p0, p0 <> p -> hget hs' p0 = hget hs p0 /\ lookup p0 hs' = lookup p0 hs /\ lookup p0 pt' = lookup p0 pt) ->
+  (forall p0 h has st, p0 <> p -> hok1 h has chq st p0 -> hok1 h has chq' st p0) ->
+  hok1 (hget hs' p) (is_some (lookup p hs')) chq' (lookup p pt') p ->
+  handle_ok hs' chq' pt'.
+Proof.
+  intros H H1 H2 Hp p0. destruct (N.eq_dec p0 p) as [->|Hne]; [exact Hp|].
+  destruct (H1 p0 Hne) as (E1 & E2 & E3). rewrite E1, E2, E3. apply H2; auto.
+Qed.
+
+Lemma num_ok_iff al cq chq pt : num_ok al cq chq pt <-> num_ok' al (q_nums cq ++ q_nums chq) pt.
+Proof. unfold num_ok, num_ok'. split; intros H p; specialize (H p); rewrite occ_app in *; lia. Qed.
+Lemma conn_ok_iff cs cq chq pt : conn_ok cs cq chq pt <-> conn_ok' cs (q_reqs cq ++ q_reqs chq) pt.
+Proof. unfold conn_ok, conn_ok'. split; intros H p; specialize (H p); rewrite occ_app in *; lia. Qed.
+
+Lemma qs_ok_push_chq cq chq ev : chq_ev ev = true -> qs_ok cq chq -> qs_ok cq (chq ++ [ev]).
+Proof. intros Hev [H1 H2]. split; [exact H1|]. rewrite forallb_app, H2. cbn [forallb]. now rewrite Hev. Qed.
+Lemma qs_ok_push_cq cq chq ev : cq_ev ev = true -> qs_ok cq chq -> qs_ok (cq ++ [ev]) chq.
+Proof. intros Hev [H1 H2]. split; [|exact H2]. rewrite forallb_app, H1. cbn [forallb]. now rewrite Hev. Qed.
+Lemma qs_ok_pop_chq cq q ev : qs_ok cq (ev :: q) -> chq_ev ev = true /\ qs_ok cq q.
+Proof. intros [H1 H2]. cbn [forallb] in H2. apply andb_true_iff in H2 as [H2 H3]. repeat split; auto. Qed.
+Lemma qs_ok_pop_cq q chq ev : qs_ok (ev :: q) chq -> cq_ev ev = true /\ qs_ok q chq.
+Proof. intros [H1 H2]. cbn [forallb] in H1. apply andb_true_iff in H1 as [H1 H3]. repeat split; auto. Qed.
+
+(** * A pending number becomes a [Connecting] entry *)
+Lemma num_step al pend pend' pt p s :
+  (forall x, occ x pend = b2n (p =? x) + occ x pend') -> num_ok' al pend pt ->
+  lookup p pt = None /\ num_ok' al pend' (insert p s pt).
+Proof.
+  intros Hp H. assert (lookup p pt = None) as Hl.
+  { specialize (H p). rewrite Hp, N.eqb_refl in H. cbn [b2n] in H. pose proof (b2n_le1 (mem p al)).
+    destruct (lookup p pt); [cbn [isK] in H; lia|reflexivity]. }
+  split; [exact Hl|]. intros x. specialize (H x). rewrite Hp in H. rewrite lookup_insert, (N.eqb_sym x p).
+  destruct (p =? x) eqn:E; cbn [b2n isK] in *; [|lia]. apply N.eqb_eq in E. subst x. rewrite Hl in H. cbn [isK] in H. lia.
+Qed.
+Lemma conn_step cs pend pend' pt p req :
+  NoDup (map fst pt) -> lookup p pt = None ->
+  (forall x, occ x pend = b2n (req =? x) + occ x pend') -> conn_ok' cs pend pt ->
+  conn_ok' cs pend' (insert p (Connecting req) pt).
+Proof.
+  intros Hn Hl Hp H x. specialize (H x). rewrite Hp in H. unfold port_reqs in *.
+  pose proof (tab_insert (fun _ s => st_reqs s) x p (Connecting req) pt Hn st_reqs_None) as T. cbv beta in T.
+  rewrite Hl in T. cbn [st_reqs] in T. rewrite occ_cons, occ_nil in T. lia.
+Qed.
+Lemma handle_ok_insert_connecting hs chq pt p req :
+  lookup p pt = None -> handle_ok hs chq pt -> handle_ok hs chq (insert p (Connecting req) pt).
+Proof.
+  intros Hl H p0. specialize (H p0). rewrite lookup_insert. destruct (p0 =? p) eqn:E; [|exact H].
+  apply N.eqb_eq in E. subst p0. rewrite Hl in H. exact H.
+Qed.
+Lemma buf_ok_insert_connecting buf pt p req : buf_ok buf pt -> buf_ok buf (insert p (Connecting req) pt).
+Proof. intros H p0 c. rewrite lookup_insert. destruct (p0 =? p); [discriminate|apply H]. Qed.
+Lemma portq_ok_insert_connecting hs pt reqs p req :
+  NoDup (map fst pt) -> lookup p pt = None -> portq_ok hs pt reqs -> portq_ok hs (insert p (Connecting req) pt) reqs.
+Proof. intros Hn Hl. apply portq_ok_insert; [exact Hn|now rewrite Hl|reflexivity]. Qed.
+
+(** the table-only components *)
+Definition tab_ok (hs : list (N * handle)) (chq : list evt) (reqs : list (N * rlife)) (buf : N) (pt : list (N * pstate)) : Prop :=
+  handle_ok hs chq pt /\ portq_ok hs pt reqs /\ buf_ok buf pt /\ NoDup (map fst pt).
+Lemma tab_ok_insert_connecting hs chq reqs buf pt p req :
+  lookup p pt = None -> tab_ok hs chq reqs buf pt -> tab_ok hs chq reqs buf (insert p (Connecting req) pt).
+Proof.
+  intros Hl (H1 & H2 & H3 & H4). split; [|split; [|split]].
+  - now apply handle_ok_insert_connecting.
+  - now apply portq_ok_insert_connecting.
+  - now apply buf_ok_insert_connecting.
+  - now apply NoDup_keys_insert.
+Qed.
+
+(** [SendPorts]: the loop that enters the ports as [Connecting] *)
+Definition ins_ports : list (N * N * N) -> list (N * pstate) -> option (list (N * pstate)) :=
+  fix ins (l : list (N * N * N)) (pt : list (N * pstate)) : option (list (N * pstate)) :=
+    match l with
+    | [] => Some pt
+    | (p, _, req) :: r =>
+        match lookup p pt with
+        | Some _ => None
+        | None => ins r (insert p (Connecting req) pt)
+        end
+    end.
+Lemma ins_ports_ok al cs hs chq reqs buf pend rpend : forall ps pt,
+  num_ok' al (map (fun x => fst (fst x)) ps ++ pend) pt ->
+  conn_ok' cs (map (fun x => snd x) ps ++ rpend) pt ->
+  tab_ok hs chq reqs buf pt ->
+  exists pt', ins_ports ps pt = Some pt' /\ num_ok' al pend pt' /\ conn_ok' cs rpend pt' /\ tab_ok hs chq reqs buf pt'.
+Proof.
+  induction ps as [|[[p id] req] ps IH]; intros pt Hn Hc Ht; cbn [ins_ports map app fst snd] in *.
+  - exists pt. auto.
+  - destruct (num_step al (p :: map (fun x => fst (fst x)) ps ++ pend) (map (fun x => fst (fst x)) ps ++ pend) pt p (Connecting req)) as [Hl Hn']; [|exact Hn|].
+    { intros x. now rewrite occ_cons. }
+    rewrite Hl. apply IH.
+    + exact Hn'.
+    + eapply conn_step; [apply Ht|exact Hl| |exact Hc]. intros x. now rewrite occ_cons.
+    + now apply tab_ok_insert_connecting.
+Qed.
+
+(** * A new connected port and its user objects *)
+Definition fresh_handle : handle := {| h_tx := Alive; h_rx := Alive; h_rxc := Alive |}.
+
+Lemma portq_ok_handle_nonconn hs pt reqs p h' :
+  NoDup (map fst pt) -> is_connected (lookup p pt) = false ->
+  portq_ok hs pt reqs -> portq_ok (insert p h' hs) pt reqs.
+Proof.
+  intros Hn Hc H r. specialize (H r). unfold portq_reqs in *.
+  pose proof (tab_change (pq_ent hs) (pq_ent (insert p h' hs)) r p pt Hn (pq_ent_None _) (pq_ent_None _)) as T.
+  assert (forall hs0, pq_ent hs0 p (lookup p pt) = []) as E.
+  { intros hs0. unfold pq_ent. destruct (lookup p pt) as [[|]|]; try reflexivity. discriminate. }
+  rewrite !E, occ_nil in T. rewrite !N.add_0_r in T. rewrite <- T; [exact H|].
+  intros k v Hk. unfold pq_ent. rewrite hget_insert. apply N.eqb_neq in Hk. now rewrite Hk.
+Qed.
+
+Lemma tab_newport hs chq reqs buf pt p m rp :
+  tab_ok hs chq reqs buf pt -> is_connected (lookup p pt) = false ->
+  tab_ok (insert p fresh_handle hs) chq reqs buf (insert p (Connected (new_conn m rp)) pt).
+Proof.
+  intros (H1 & H2 & H3 & H4) Hc. split; [|split; [|split]].
+  - apply (handle_ok_gen hs _ chq chq pt _ p H1).
+    + intros p0 Hne. apply N.eqb_neq in Hne. rewrite hget_insert, !lookup_insert, Hne. auto.
+    + auto.
+    + rewrite hget_insert, !lookup_insert, N.eqb_refl. specialize (H1 p). unfold hok1 in *.
+      destruct H1 as (K0 & K1 & K2 & K3 & K4 & K5).
+      assert (h_tx (hget hs p) = Gone /\ h_rx (hget hs p) = Gone) as [G1 G2].
+      { destruct (lookup p pt) as [[|]|]; try exact K5. discriminate. }
+      rewrite G1, G2 in *. specialize (K4 eq_refl).
+      cbn [fresh_handle h_tx h_rx h_rxc is_queued is_gone b2n new_conn tx_dropped rx_dropped rx_closed is_some] in *.
+      repeat split; auto; try discriminate.
+      destruct (h_rxc (hget hs p)); cbn [is_queued b2n] in K2; try exact K2. congruence.
+  - apply portq_ok_insert; [exact H4| | |].
+    + unfold pq_ent. destruct (lookup p pt) as [[|]|]; try reflexivity. discriminate.
+    + unfold pq_ent. cbn [new_conn rxq flat_map]. now destruct (is_alive _).
+    + now apply portq_ok_handle_nonconn.
+  - apply buf_ok_upd; [exact H3|]. unfold used, all4. cbn [new_conn rxq map sum count tx_dropped rx_open andb negb b2n].
+    repeat split; lia.
+  - now apply NoDup_keys_insert.
+Qed.
+
+Lemma conn_ok_newport cs cq chq pt p c :
+  NoDup (map fst pt) -> st_reqs (lookup p pt) = [] -> conn_ok cs cq chq pt -> conn_ok cs cq chq (insert p (Connected c) pt).
+Proof.
+  intros Hn Hl H r. specialize (H r). unfold port_reqs in *.
+  pose proof (tab_insert (fun _ s => st_reqs s) r p (Connected c) pt Hn st_reqs_None) as T. cbv beta in T.
+  rewrite Hl in T. cbn [st_reqs] in T. rewrite occ_nil in T. lia.
+Qed.
+
+Lemma portq_ok_remove_req hs pt reqs r :
+  is_portq (lookup r reqs) = false -> portq_ok hs pt reqs -> portq_ok hs pt (remove r reqs).
+Proof.
+  intros Hl H r0. specialize (H r0). rewrite lookup_remove. destruct (r0 =? r) eqn:E; [|exact H].
+  apply N.eqb_eq in E. subst r0. rewrite Hl in H. exact H.
+Qed.
+Lemma tab_ok_reqs hs chq reqs reqs' buf pt :
+  (portq_ok hs pt reqs -> portq_ok hs pt reqs') -> tab_ok hs chq reqs buf pt -> tab_ok hs chq reqs' buf pt.
+Proof. intros Hr (H1 & H2 & H3 & H4). split; [|split; [|split]]; auto. Qed.
+
+(** * The components that talk about the port table, bundled *)
+Definition core_ok (G : Prop) (al : list N) (cq chq : list evt) (hs : list (N * handle)) (reqs : list (N * rlife))
+    (cs : list (N * cstate)) (pt : list (N * pstate)) : Prop :=
+  num_ok al cq chq pt /\ handle_ok hs chq pt /\ portq_ok hs pt reqs /\ NoDup (map fst pt) /\ (G -> conn_ok cs cq chq pt).
+
+Lemma core_upd G al cq chq hs reqs cs pt p c c' :
+  core_ok G al cq chq hs reqs cs pt -> lookup p pt = Some (Connected c) ->
+  tx_dropped c' = tx_dropped c -> rx_dropped c' = rx_dropped c -> rx_closed c' = rx_closed c ->
+  flat_map snd (rxq c') = flat_map snd (rxq c) ->
+  core_ok G al cq chq hs reqs cs (insert p (Connected c') pt).
+Proof.
+  intros (H1 & H2 & H3 & H4 & H5) Hl E1 E2 E3 E4. split; [|split; [|split; [|split]]].
+  - eapply num_ok_upd; eauto.
+  - eapply handle_ok_upd; eauto.
+  - eapply portq_ok_upd; eauto.
+  - now apply NoDup_keys_insert.
+  - intros HG. eapply conn_ok_upd; eauto.
+Qed.
+
+Lemma core_free G al cq chq hs reqs cs pt p c :
+  core_ok G al cq chq hs reqs cs pt -> lookup p pt = Some (Connected c) -> all4 c = true ->
+  core_ok G (del p al) cq chq hs reqs cs (remove p pt).
+Proof.
+  intros (H1 & H2 & H3 & H4 & H5) Hl Ha.
+  assert (h_tx (hget hs p) = Gone /\ h_rx (hget hs p) = Gone) as [G1 G2].
+  { specialize (H2 p). unfold hok1 in H2. rewrite Hl in H2. destruct H2 as (_ & _ & _ & _ & _ & _ & T1 & T2 & _).
+    unfold all4 in Ha. apply andb_true_iff in Ha as [Ha _]. apply andb_true_iff in Ha as [Ha _].
+    apply andb_true_iff in Ha as [Ha Hb]. rewrite Ha in T1. rewrite Hb in T2. split.
+    - destruct (h_tx (hget hs p)); try discriminate; reflexivity.
+    - destruct (h_rx (hget hs p)); try discriminate; reflexivity. }
+  split; [|split; [|split; [|split]]].
+  - apply num_ok_remove; [congruence|exact H1].
+  - apply (handle_ok_gen hs hs chq chq pt _ p H2).
+    + intros p0 Hne. apply N.eqb_neq in Hne. now rewrite lookup_remove, Hne.
+    + auto.
+    + rewrite lookup_remove, N.eqb_refl. specialize (H2 p). unfold hok1 in *. tauto.
+  - apply portq_ok_remove; [exact H4| |exact H3]. rewrite Hl. unfold pq_ent. rewrite G2. reflexivity.
+  - now apply NoDup_keys_remove.
+  - intros HG. apply conn_ok_remove; [exact H4|now rewrite Hl|auto].
+Qed.
+
+(** * Resolving a local connect request whose port is [Connecting] *)
+Lemma conn_ok_resolve_insert cs cq chq pt p req s' r :
+  NoDup (map fst pt) -> lookup p pt = Some (Connecting req) -> st_reqs (Some s') = [] ->
+  conn_ok cs cq chq pt -> conn_ok (insert req (CResolved r) cs) cq chq (insert p s' pt).
+Proof.
+  intros Hn Hl Hs H r0. pose proof (H r0) as H0. unfold port_reqs in *.
+  pose proof (tab_insert (fun _ s => st_reqs s) r0 p s' pt Hn st_reqs_None) as T. cbv beta in T.
+  rewrite Hl, Hs in T. cbn [st_reqs] in T. rewrite occ_cons, !occ_nil in T.
+  rewrite lookup_insert, (N.eqb_sym r0 req). destruct (req =? r0) eqn:E; cbn [b2n is_waiting] in *; [|lia].
+  pose proof (b2n_le1 (is_waiting (lookup r0 cs))). lia.
+Qed.
+Lemma conn_ok_resolve_remove cs cq chq pt p req r :
+  NoDup (map fst pt) -> lookup p pt = Some (Connecting req) ->
+  conn_ok cs cq chq pt -> conn_ok (insert req (CResolved r) cs) cq chq (remove p pt).
+Proof.
+  intros Hn Hl H r0. pose proof (H r0) as H0. unfold port_reqs in *.
+  pose proof (tab_remove (fun _ s => st_reqs s) r0 p pt Hn st_reqs_None) as T. cbv beta in T.
+  rewrite Hl in T. cbn [st_reqs] in T. rewrite occ_cons, !occ_nil in T.
+  rewrite lookup_insert, (N.eqb_sym r0 req). destruct (req =? r0) eqn:E; cbn [b2n is_waiting] in *; [|lia].
+  pose proof (b2n_le1 (is_waiting (lookup r0 cs))). lia.
+Qed.
+Lemma handle_ok_remove_nonconn hs chq pt p :
+  is_connected (lookup p pt) = false -> handle_ok hs chq pt -> handle_ok hs chq (remove p pt).
+Proof.
+  intros Hl H p0. specialize (H p0). rewrite lookup_remove. destruct (p0 =? p) eqn:E; [|exact H].
+  apply N.eqb_eq in E. subst p0. unfold hok1 in *. destruct (lookup p pt) as [[|]|]; try discriminate; tauto.
+Qed.
+
+(** [PortData]: the loop that registers the received ports as outstanding *)
+Definition ins_out : list N -> list N -> option (list N) :=
+  fix ins (l : list N) (o : list N) : option (list N) :=
+    match l with
+    | [] => Some o
+    | p :: r => if mem p o then None else ins r (p :: o)
+    end.
+Lemma ins_out_spec : forall ps o o', ins_out ps o = Some o' ->
+  forall r, mem r o' = mem r ps || mem r o /\ (mem r ps = true -> mem r o = false) /\ occ r ps = b2n (mem r ps).
+Proof.
+  induction ps as [|x ps IH]; intros o o' H r; cbn [ins_out mem] in *.
+  - injection H as <-. repeat split; auto. discriminate.
+  - destruct (mem x o) eqn:Ex; [discriminate|]. destruct (IH _ _ H r) as (I1 & I2 & I3). cbn [mem] in I1, I2.
+    rewrite occ_cons, (N.eqb_sym x r). destruct (r =? x) eqn:E; cbn [orb b2n] in *.
+    + apply N.eqb_eq in E. subst x. repeat split; auto.
+      * rewrite I1. now rewrite orb_true_r.
+      * destruct (mem r ps) eqn:Em; [specialize (I2 eq_refl); discriminate|]. cbn [b2n] in I3. lia.
+    + repeat split; auto.
 Qed.
